@@ -320,10 +320,13 @@ class AbstractDateTime(AnyAtomicType):
 
             case YearMonthDuration():
                 month = op(self._dt.month - 1, other.months) % 12 + 1
-                year = self._year + op(self._dt.month - 1, other.months) // 12
+
+                # The arithmetic uses the astronomical year (the stored year has no year zero)
+                year = self._year if self._year > 0 else self._year + 1
+                year += op(self._dt.month - 1, other.months) // 12
                 day = adjust_day(year, month, self._dt.day)
 
-                if year > 0:
+                if 0 < year <= 9999:
                     dt = self._dt.replace(year=year, month=month, day=day)
                 elif isleap(year):
                     dt = self._dt.replace(year=4, month=month, day=day)
@@ -331,8 +334,8 @@ class AbstractDateTime(AnyAtomicType):
                     dt = self._dt.replace(year=6, month=month, day=day)
 
                 kwargs = {k: getattr(dt, k) for k in self.pattern.groupindex.keys()}
-                if year <= 0:
-                    kwargs['year'] = year
+                if not 0 < year <= 9999:
+                    kwargs['year'] = year if year > 0 else year - 1
                 return type(self)(**kwargs)
 
             case _:
